@@ -78,7 +78,7 @@ type FreeStats struct {
 
 // RunFree runs every program's body repeatedly with real goroutines until
 // expired reports true (at least once per program). Threads still blocked
-// after a grace period are abandoned; a program that ended blocked is not
+// after a grace period (1 s) are abandoned; a program that ended blocked is not
 // repeated once many goroutines have been abandoned.
 func RunFree(progs []Program, expired func() bool) FreeStats {
 	if !Free {
@@ -116,7 +116,7 @@ func RunFree(progs []Program, expired func() bool) FreeStats {
 			select {
 			case <-done:
 				st.Joined++
-			case <-time.After(100 * time.Millisecond):
+			case <-time.After(time.Second):
 				st.Blocked++
 				blockedBefore[p.Name] = true
 			}
